@@ -616,7 +616,7 @@ impl FieldElement for Fp2 {
             // r0 = 0
             // r1 = -(2 * a1)^-1
             r1 = self.c1.fp_double();
-            r1 = self.c1.fp_inv();
+            r1 = r1.fp_inv();
             r1 = r1.fp_neg();
             proof {
                 if a1 == 0 {
